@@ -61,6 +61,7 @@ func ChanRecv2[T any](ch <-chan T) (T, bool) {
 func ChanClose[T any](ch chan<- T) {
 	if s := simTask(); s != nil {
 		s.park(OpChan, uintptr(chanPtr(ch)), nil, nil, nil, nil, nil)
+		s.noteClosed(uintptr(chanPtr(ch)))
 	}
 	close(ch)
 }
@@ -170,11 +171,38 @@ func (s *Sim) noteSelectReady(cases []SelCase, won int) {
 		if i == won || !c.ch.IsValid() || c.ch.IsNil() {
 			continue
 		}
-		if c.dir == reflect.SelectRecv && c.ch.Len() > 0 {
+		// (a timer channel never shows a length; a channel closed by the code
+		// under test is known from ChanClose)
+		if c.dir == reflect.SelectRecv && (c.ch.Len() > 0 || s.isClosed(c.ch.Pointer())) {
 			s.Stats.SelectMulti++
 			return
 		}
 	}
+}
+
+//go:norace
+func (s *Sim) noteClosed(ch uintptr) {
+	raceDisable()
+	s.mu.Lock()
+	s.closedCh = AppendNR(s.closedCh, ch)
+	s.mu.Unlock()
+	raceEnable()
+}
+
+//go:norace
+func (s *Sim) isClosed(ch uintptr) bool {
+	raceDisable()
+	s.mu.Lock()
+	found := false
+	for _, c := range s.closedCh {
+		if c == ch {
+			found = true
+			break
+		}
+	}
+	s.mu.Unlock()
+	raceEnable()
+	return found
 }
 
 // ChanIter drives a rewritten `for v := range ch`.
